@@ -73,7 +73,7 @@ type recorder struct {
 }
 
 func newRecorder() *recorder {
-	ln, err := net.Listen("tcp", "127.0.0.1:0")
+	ln, err := ListenRetry("tcp", "127.0.0.1:0")
 	if err != nil {
 		panic(err)
 	}
@@ -255,11 +255,11 @@ func startNode(mgr upstream.Manager, ln net.Listener, timeout time.Duration) *pn
 
 func newStack(timeout time.Duration) *stack {
 	s := &stack{timeout: timeout, rec: newRecorder()}
-	lnA, err := net.Listen("tcp", "127.0.0.1:0")
+	lnA, err := ListenRetry("tcp", "127.0.0.1:0")
 	if err != nil {
 		panic(err)
 	}
-	lnB, err := net.Listen("tcp", "127.0.0.1:0")
+	lnB, err := ListenRetry("tcp", "127.0.0.1:0")
 	if err != nil {
 		panic(err)
 	}
@@ -283,7 +283,7 @@ func newStack(timeout time.Duration) *stack {
 	s.a = startNode(mgrA, lnA, timeout)
 
 	// the agent's HTTP reverse proxy (same timeout / error handler / gin wrapping code)
-	lnG, err := net.Listen("tcp", "127.0.0.1:0")
+	lnG, err := ListenRetry("tcp", "127.0.0.1:0")
 	if err != nil {
 		panic(err)
 	}
@@ -297,7 +297,7 @@ func newStack(timeout time.Duration) *stack {
 	s.agent = lnG.Addr().String()
 
 	startAgent := func(addr string) string {
-		ln, err := net.Listen("tcp", "127.0.0.1:0")
+		ln, err := ListenRetry("tcp", "127.0.0.1:0")
 		if err != nil {
 			panic(err)
 		}
@@ -312,7 +312,7 @@ func newStack(timeout time.Duration) *stack {
 		return ln.Addr().String()
 	}
 	// TLS, HTTP/1.1 only: the raw recorder behind a TLS listener
-	tlsLn, err := net.Listen("tcp", "127.0.0.1:0")
+	tlsLn, err := ListenRetry("tcp", "127.0.0.1:0")
 	if err != nil {
 		panic(err)
 	}
